@@ -36,6 +36,7 @@ _A_U16 = ('read_u16/read_u32 bodies are outside Verus (u16::from_be_bytes cannot
 _K_RD_PLAIN = ['readers::reader_u16_u32_blocking_plain', 'readers::reader_u16_u32_async_plain']
 _K_RD_FAST = ['readers::reader_u16_u32_blocking_8', 'readers::reader_u16_u32_blocking_7', 'readers::reader_u16_u32_blocking_2']
 _K_RD_ASYNC = ['readers::reader_u16_u32_async_8']
+_K_PAYLOAD = ['readers::payload_after_tag_blocking', 'readers::payload_async_kind']
 _K_RD_ALL = [f'readers::reader_u16_u32_{k}_{c}' for k in ('blocking', 'async')
              for c in ('8', '8h', '0', '1', '2', '3', '4', '5', '7', '7e')
              if f'readers::reader_u16_u32_{k}_{c}' not in _K_RD_FAST + _K_RD_ASYNC]
@@ -142,11 +143,14 @@ PROPS = {
     'C06': {
         'title': 'parsing consumes exactly the message',
         'verus': _READER + _AREADER + _DRIVE + _ADRIVE + [r'^verif_spec::scan_rest$'],
-        'kani': _K_RD_FAST + _K_RD_ASYNC,
+        'kani': _K_RD_FAST + _K_RD_ASYNC + _K_PAYLOAD,
         'kani_thorough': _K_RD_ALL,
         'assumptions': [_A_STREAM, _A_LOG, _A_W8, _A_U16,
-                        'IppReader::into_payload / IppPayload (multi-trait dyn) are outside Verus: that the payload delivers the '
-                        'inner reader unmodified is an assumed contract'],
+                        'IppReader::into_payload / IppPayload (multi-trait dyn) are outside Verus; that the payload delivers exactly the '
+                        'unconsumed bytes of the inner reader, unmodified, then end-of-stream is discharged by the Kani harnesses '
+                        'payload_after_tag_blocking / payload_async_kind on the real code for every byte content over a fragmenting '
+                        'source (same-kind paths; block_on, unreachable there, is stubbed out because it crashes the Kani compiler); '
+                        'the cross-kind paths (AllowStdIo / block_on) belong to C08 and stay assumed'],
         'uncovered': [],
         'bounded': ['c06'],
         'design_ref': '§4 C06',
@@ -250,7 +254,7 @@ _ESS = {
             'paired': True},
     'C06': {'essential': [{'owners': '|'.join([_FRONT, _RDRS]), 'tags': ['c06']}],
             'kani_essential': ['readers::reader_u16_u32_blocking_8', 'readers::reader_u16_u32_async_8',
-                               'readers::reader_u16_u32_blocking_8h', 'readers::reader_u16_u32_async_8h']},
+                               'readers::reader_u16_u32_blocking_8h', 'readers::reader_u16_u32_async_8h'] + _K_PAYLOAD},
     'C07': {'essential': [{'owners': '|'.join([_FRONT, _RDRS]), 'tags': ['c07']},
                           {'owners': r'^verif_lemmas::lemma_scan_prefix_none$', 'untagged': True}],
             'kani_essential': ['errors::io_error_kind_preserved'] + [h for h in _K_RD_FAST + _K_RD_ALL if not h.endswith(('_8', '_8h'))]},
